@@ -53,6 +53,7 @@ void h_run(void) {
    * destroyed and initialised again for another number of fibers */
   barp = h_dirty_alloc(sizeof *barp);
   const int phases = wl_pct(25) ? 2 : 1;
+  const int preset_k = wl_pct(15) ? wl_int(1, 2) : 0;
   for (int ph = 0; ph < phases; ph++) {
     if (ph) {
       fiber_barrier_destroy(&bar);
@@ -61,6 +62,14 @@ void h_run(void) {
       g_new_phase();
     }
     fiber_barrier_init(&bar, bcount);
+    /* "round after round": between rounds the arrival counter is the barrier's whole state; in some runs it is
+     * moved to where a few hundred million earlier rounds would have left it - a multiple of count just below
+     * 2^32 (or 2^33), so that the rounds of this run carry it across */
+    if (preset_k) {
+      const uint64_t target = ((uint64_t)preset_k << 32) - (uint64_t)wl_int(0, 2) * (uint64_t)bcount;
+      bar.counter = target - target % (uint64_t)bcount;
+      sim_probe("counter_preset", 1);
+    }
     fiber_t* f[8];
     for (int i = 0; i < bcount; i++) f[i] = fiber_create(STK, bfib, (void*)(intptr_t)i);
     for (int i = 0; i < bcount; i++) fiber_join(f[i], NULL);
